@@ -87,20 +87,21 @@ theorem try_ok_source_law (M n f : Nat) (env env1 : Core.Env) (tr1 : List Ev) (b
 /-- **C02 (try/undo) on the core**: the emitted code — one Turing jump over the body, conditional
 halts for the defeat calls — realises exactly that semantics on the committed timeline, for
 every core program (any nesting of blocks, conditionals and loops inside and around the `try`),
-every word size, stack size and build mode.  (`Core.coreProg` is checked on every run to be
-identical to the real compiler's output, and `Core.exec` to agree with the reference machine.) -/
-theorem core_try_undo_correct (cf : Core.Config) (body : Core.S) (hw : 2 ≤ cf.w)
-    (hB : Core.funcLen cf.checked body + Gen.stdlibLength < 256 ^ cf.w)
-    (hSE : 5 * cf.w + cf.stackWords * cf.w + cf.w < 256 ^ cf.w)
-    (hwf : Core.wfS [] body = true) (hyl : Core.youLevel body = true)
+every argument vector, word size, stack size and build mode.  (`Core.coreProg` is checked on
+every run to be identical to the real compiler's output, and `Core.exec` to agree with the
+reference machine.) -/
+theorem core_try_undo_correct (cf : Core.Config) (params : List String) (args : List Int) (body : Core.S) (hw : 2 ≤ cf.w)
+    (hB : Core.funcLen cf.checked body + Gen.stdlibLength < 256 ^ cf.w) (hSE : Core.F0 cf args < 256 ^ cf.w)
+    (hnd : params.Nodup) (hlen : args.length = params.length)
+    (hwf : Core.wfS params body = true) (hyl : Core.youLevel body = true)
     (fuel : Nat) (env' : Core.Env) (tr : List Ev) (res : Core.Res)
-    (hex : Core.exec (256 ^ cf.w) (8 * cf.w) fuel (fun _ => 0) body = some (env', tr, res))
+    (hex : Core.exec (256 ^ cf.w) (8 * cf.w) fuel (Core.argEnv (256 ^ cf.w) params args) body = some (env', tr, res))
     (hck : res = .div0 → cf.checked = true)
-    (hroom : Core.pkS cf.w cf.w body ≤ (cf.stackWords + 1) * cf.w) :
-    ∃ mEnd, Exec (Sphinx.sphinx (Core.coreProg cf body)) (Core.coreInit cf body) (tr ++ Core.terminalEvs res)
+    (hroom : Core.pkS cf.w (Core.entryOff cf.w params) body ≤ cf.stackWords * cf.w + args.length * cf.w + cf.w) :
+    ∃ mEnd, Exec (Sphinx.sphinx (Core.coreProg cf params body)) (Core.coreInit cf args body) (tr ++ Core.terminalEvs res)
         ⟨Sphinx.tntPc (Core.funcLen cf.checked body), mEnd⟩ ∧
-      ¬ Halts (Sphinx.sphinx (Core.coreProg cf body)) (Core.coreInit cf body) :=
-  Core.core_correct cf body hw hB hSE hwf hyl fuel env' tr res hex hck hroom
+      ¬ Halts (Sphinx.sphinx (Core.coreProg cf params body)) (Core.coreInit cf args body) :=
+  Core.core_correct cf params args body hw hB hSE hnd hlen hwf hyl fuel env' tr res hex hck hroom
 
 /-- non-vacuity: a program whose try body prints `A`, assigns, is then defeated and undone: the
 committed output is `U` (handler) and `Y` (the assignment did not happen) -/
@@ -111,7 +112,7 @@ example :
                   (.putc 85 .nil)
           (.ifb (.cmp .eq (.var "x") (.lit 5)) (.putc 89 .nil) (.putc 78 .nil) .ret))
     Core.wfS [] body = true ∧ Core.youLevel body = true ∧
-    (Core.exec (256 ^ 2) 16 12 (fun _ => 0) body).map (fun r => (r.2.1, r.2.2)) =
+    (Core.exec (256 ^ 2) 16 12 (Core.argEnv (256 ^ 2) [] []) body).map (fun r => (r.2.1, r.2.2)) =
       some ([Ev.out 85, Ev.out 89], .returned) := by
   refine ⟨by decide, by decide, by decide⟩
 
